@@ -29,7 +29,11 @@ def one(meta_path):
     finally:
         shutil.rmtree(tmp, ignore_errors=True)
 
-metas = sorted(glob.glob("/verif/seeded/*/meta.json"))
-with ThreadPoolExecutor(max_workers=int(os.environ.get("JOBS","8"))) as ex:
-    for name, caught in ex.map(one, metas):
-        print(name, "DOES NOT APPLY" if caught is None else json.dumps(caught))
+if __name__ == "__main__":
+    # optional arguments: names of stored changes (e.g. C02-z2) to refresh only those
+    metas = sorted(glob.glob("/verif/seeded/*/meta.json"))
+    if len(sys.argv) > 1:
+        metas = [m for m in metas if os.path.basename(os.path.dirname(m)) in sys.argv[1:]]
+    with ThreadPoolExecutor(max_workers=int(os.environ.get("JOBS","8"))) as ex:
+        for name, caught in ex.map(one, metas):
+            print(name, "DOES NOT APPLY" if caught is None else json.dumps(caught))
